@@ -113,6 +113,15 @@ def do_yield(ip, y, st):
             from .calls import eval_spec
             ip.emit("lazy", "at-yield#%d" % k, s2, eval_spec(ip, s2, env, cl, old=ip.entry))
         out = s2.env["out"]
+        if isinstance(s2.heap[out.cid], PyListCell):
+            s2.heap[out.cid] = PyListCell(s2.heap[out.cid].items + [v])
+            s2.notes["n_yields"] = s2.notes.get("n_yields", 0) + 1
+            env = ip.spec_env(s2)
+            for k, cl in enumerate(ip.c.abandon):
+                from .calls import eval_spec
+                ip.emit("abandon", "abandon#%d@yield" % k, s2, eval_spec(ip, s2, env, cl, old=ip.entry))
+            outs.append(("next", s2, None))
+            continue
         t = ip.deref(s2, out)
         from .builtins_ import elem_term
         vt = elem_term(ip, s2, ip.to_yield_value(s2, v), ip.reg.lst_elem[t.sort])
